@@ -24,7 +24,7 @@ EXPLANATION = 'theorems about the model fixWindow; correspondence of the produce
 
 
 def scenarios(seed, tier):
-    n = 250 if tier == 'quick' else 2500
+    n = 500 if tier == 'quick' else 3000
     rnd = random.Random(seed * 7919 + 15)
     for i in range(n):
         r2 = random.Random(rnd.getrandbits(48))
